@@ -1090,6 +1090,8 @@ func (c *Client) findNewPrimary(ctx context.Context, height int64, remove bool) 
 
 			wg.Wait() // wait for all goroutines to finish
 
+			oldPrimary, oldWitnesses := c.primary, c.witnesses
+
 			// if we are not intending on removing the primary then append the old primary to the end of the witness slice
 			if !remove {
 				c.witnesses = append(c.witnesses, c.primary)
@@ -1105,6 +1107,9 @@ func (c *Client) findNewPrimary(ctx context.Context, height int64, remove bool) 
 			// remove witnesses marked as bad (the client must do this before we alter the witness slice and change the indexes
 			// of witnesses). Removal is done in descending order
 			if err := c.removeWitnesses(witnessesToRemove); err != nil {
+				// no witness would be left: keep the provider lists as they were, so that
+				// the promoted provider is never primary and witness at the same time
+				c.primary, c.witnesses = oldPrimary, oldWitnesses
 				return nil, err
 			}
 
